@@ -218,6 +218,11 @@ func monitorStream(which string) StreamMonitor {
 					if off != wantOff {
 						viol("C02", "request-not-persisted-tuple", fmt.Sprintf("op %d: vb %d requested with %+v, the persisted checkpoint / reset rule gives %+v", i, o.Vb, off, wantOff), i)
 					}
+					// C06: a position taken from the server (auto-reset 'latest' without checkpoints) lies on the server's current
+					// branch: the newest entry of the failover log, whatever older entries the log has
+					if _, stored := s.store[o.Vb]; !stored && !anyStored && h.Cfg.Latest && off.UUID != op.Sv.UUID[o.Vb] {
+						viol("C06", "reset-on-wrong-branch", fmt.Sprintf("op %d: vb %d reset to the current high seqno %d with branch %d; the newest failover entry is %d", i, o.Vb, off.Seq, off.UUID, op.Sv.UUID[o.Vb]), i)
+					}
 					s.tracked[o.Vb] = &off
 					s.resume[o.Vb] = off
 					want := ^uint64(0)
